@@ -188,11 +188,33 @@ def guard_is_equal(arm, a, b):
     return g.get("k") == "Binary" and g["op"] == "==" and {A.ident(A.strip(g["left"])), A.ident(A.strip(g["right"]))} == {a, b}
 
 
+def _split_eq_arms(arms, operands):
+    """an unguarded arm whose whole body is `if a == b {X} else {Y}` (or `!=` with the branches the other
+    way round) is the guarded arm `if a == b => X` followed by the unguarded arm `=> Y`"""
+    out = []
+    for arm in arms:
+        body = A.strip(arm["body"])
+        st = A.stmts_of(body) if body.get("k") == "Block" else [body]
+        e = A.strip(A.stmt_expr(st[0]) or {}) if len(st) == 1 else {}
+        if arm.get("guard") or len(operands) != 2 or e.get("k") != "If" or e.get("else") is None:
+            out.append(arm)
+            continue
+        c = A.strip(e["cond"])
+        if not (c.get("k") == "Binary" and c["op"] in ("==", "!=") and {A.ident(A.strip(c["left"])), A.ident(A.strip(c["right"]))} == set(operands)):
+            out.append(arm)
+            continue
+        eq_body, ne_body = (e["then"], e["else"]) if c["op"] == "==" else (e["else"], e["then"])
+        guard = c if c["op"] == "==" else dict(c, op="==")
+        out.append(dict(arm, guard=guard, body=eq_body))
+        out.append(dict(arm, body=ne_body))
+    return out
+
+
 def check_protocol_match(rule, fn, m, operands, r_x, opname, fname, has_out=True):
     """`m` matches on the allocation(s) of `operands` (SSA names); r_x is the
     variable holding the output register (None for op_output)."""
     seen = {}
-    for arm in m["arms"]:
+    for arm in _split_eq_arms(m["arms"], operands):
         kinds = alloc_kinds(arm["pat"])
         if kinds is None or len(kinds) != len(operands):
             rule.bad("%s|pattern" % fname, "unrecognised allocation pattern `%s`" % A.unparse(arm["pat"]), A.where(fn, arm))
@@ -328,7 +350,7 @@ def r4_protocol(rule, root=None):
     ]
     _want_cases(rule, fn, "op_reg_reg", seen, want)
     # guarded arms precede their unguarded siblings
-    order = [(",".join(k for k, _ in (alloc_kinds(a["pat"]) or [])), bool(a.get("guard"))) for a in m["arms"]]
+    order = [(",".join(k for k, _ in (alloc_kinds(a["pat"]) or [])), bool(a.get("guard"))) for a in _split_eq_arms(m["arms"], [lhs, rhs])]
     for lab in ("Memory,Memory", "Unassigned,Unassigned"):
         if (lab, True) in order and (lab, False) in order and order.index((lab, True)) > order.index((lab, False)):
             rule.bad("op_reg_reg|%s|order" % lab, "the `if lhs == rhs` arm for (%s) comes after the general arm and is unreachable" % lab, A.where(fn, m))
